@@ -39,7 +39,7 @@ class E2Unit:
         def comp(k_s):
             k, s = k_s
             o = os.path.join(d, 'nat.%d.o' % k)
-            must(run(GXX_NATIVE + flags + ['-I' + ENGINE] + ['-D' + x for x in self.defines] + ['-c', s, '-o', o], timeout=900), 'g++ ' + s)
+            must(run(GXX_NATIVE + flags + ['-I' + ENGINE] + ['-D' + x for x in self.defines] + list(getattr(self, 'native_flags', [])) + ['-c', s, '-o', o], timeout=900), 'g++ ' + s)
             return o
         objs = pmap(comp, list(enumerate(srcs)))
         self.native = os.path.join(d, 'native')
@@ -51,7 +51,7 @@ class E2Unit:
         env = dict(os.environ, ASAN_OPTIONS='detect_leaks=0:halt_on_error=1:allocator_may_return_null=1', UBSAN_OPTIONS='halt_on_error=1:print_stacktrace=1')
         r = run([self.native, entry] + [str(a) for a in args], stdin=inp, timeout=timeout, env=env)
         txt = r['out'] + r['err']
-        return dict(out=r['out'], err=r['err'][-3000:], rc=r['rc'], skipped='SKIP' in r['out'],
+        return dict(out=r['out'], err=r['err'][-3000:], rc=r['rc'], skipped=('SKIP' in r['out'] and 'FAIL ' not in r['out'].split('SKIP')[0]),
                     fail='FAIL ' in r['out'], san=('AddressSanitizer' in txt or 'runtime error' in txt),
                     crashed=(r['rc'] not in (0, 1) or r['timed_out']), timed_out=r['timed_out'],
                     notes=[l for l in r['out'].split('\n') if l.startswith('NOTE ')])
